@@ -59,6 +59,7 @@ def main():
     if rules is None or not cases:
         raise vf.NotAVerdict("Convert emitted no rules / no cases")
     cases = convlib.decode(cases)
+    cases.sort(key=vf.canon)  # TLC emits in worker order; every seeded choice must see the same order
     muts = 120 if ck.thorough() else 25
     hargs = ["-a", "seed=%d" % ck.seed, "-a", "mutations=%d" % muts]
     if replay:
@@ -124,6 +125,10 @@ def main():
                 failed -= cl
         if not failed:
             continue
+        if "same_identity" in failed and f.get("reparsed") is not None:
+            f.setdefault("detail", [])
+            f["detail"] = (f["detail"] or []) + ["parse(print(u)) = %s differs from u = %s beyond the normal form of type %s"
+                                                 % (json.dumps(f["reparsed"]), json.dumps(f["purl_rec"]), f["ptype"])]
         key = (f["ext"], f["origin"], tuple(sorted(failed)))
         g = groups.setdefault(key, {"n": 0, "first": f})
         g["n"] += 1
